@@ -347,7 +347,8 @@ fn make_case(seed: u64, i: u64) -> Case {
             *r.pick(&REAL_FAMILIES)
         }
     };
-    let na = sci_common::gen::pick_len(&mut r, i / 18, &[5000]);
+    // every 45th input lies beyond the t -> z switch (n > 100 001): the normal branch is a separate code path
+    let na = if i % 45 == 44 { 100_200 + (i % 7) as usize } else { sci_common::gen::pick_len(&mut r, i / 18, &[5000]) };
     let nb = sci_common::gen::pick_len(&mut r, i / 18 + 5, &[700]);
     let a = Spec { family: fam(&mut r), n: na, seed: r.next_u64(), f32, positive };
     let b = Spec { family: fam(&mut r), n: nb, seed: r.next_u64(), f32, positive };
@@ -394,13 +395,16 @@ pub fn run(run: &Arc<Run>) {
     run.par(n, |i, l| {
         let c = make_case(seed, i);
         l.count_s(format!("producer:{:?}", c.prod));
+        if c.a.n > 100_001 {
+            l.count("input beyond the t->z switch (n > 100 001)");
+        }
         if c.a.f32 {
             judge::<f32>(&c, &levels, l)
         } else {
             judge::<f64>(&c, &levels, l)
         }
     });
-    let mut req: Vec<String> = vec!["result kind judged".into(), "point estimate containment judged".into(), "2L-1 identity judged".into(), "2L-1 identity judged bit-exactly (dyadic level)".into(), "nesting judged".into()];
+    let mut req: Vec<String> = vec!["result kind judged".into(), "point estimate containment judged".into(), "2L-1 identity judged".into(), "2L-1 identity judged bit-exactly (dyadic level)".into(), "nesting judged".into(), "input beyond the t->z switch (n > 100 001)".into()];
     for p in PRODS {
         req.push(format!("producer:{:?}", p));
     }
